@@ -524,6 +524,11 @@ class HierDictDocument(DictDocument):
             return self._object_to_doc(st, inst, tags)
 
         if issubclass(cls, ComplexModelBase):
+            if inst is None:
+                # e.g. an array item that is None: null, not an object with
+                # all its members missing
+                return None
+
             return self._complex_to_doc(cls, inst, tags)
 
         if issubclass(cls, (ByteArray, Uuid)):
